@@ -182,3 +182,13 @@ class Undefined:
 
 
 UNDEF = Undefined()
+
+
+class GlobalDict(dict):
+    """a module-level dict of the repository seen from a function under contract: reads are ordinary,
+    any write is a write to state that outlives the call (frame obligation)"""
+    gname = '?'
+
+
+class GlobalList(list):
+    gname = '?'
